@@ -234,6 +234,53 @@ func c06Worker(args []string) error {
 				wg  sync.WaitGroup
 			)
 
+			// release storms: one goroutine allocates for a session, then all goroutines release that session at the same moment
+			// (a Session Deletion racing the teardown of its association): exactly one of them gives the address back
+			if r%5 == 4 {
+				rec := func(g int, fn string, s uint64) {
+					t0 := atomic.AddInt64(&ctr, 1)
+					l := call(p, fn, s)
+					t1 := atomic.AddInt64(&ctr, 1)
+					inv := l
+					inv.Op, inv.G = "inv", g+1
+					res := c06Line{Op: "res", G: g + 1, Fn: fn, S: l.S}
+
+					mu.Lock()
+					evs = append(evs, ev{t0, inv}, ev{t1, res})
+					mu.Unlock()
+				}
+
+				for round := 0; round < 60; round++ {
+					sess := uint64(5000 + round)
+					rec(0, "alloc", sess)
+
+					gate := make(chan struct{})
+
+					for g := 0; g < G; g++ {
+						wg.Add(1)
+
+						go func(g int) {
+							defer wg.Done()
+							<-gate
+							rec(g, "free", sess)
+						}(g)
+					}
+
+					close(gate)
+					wg.Wait()
+				}
+
+				sort.Slice(evs, func(i, j int) bool { return evs[i].stamp < evs[j].stamp })
+
+				for _, e := range evs {
+					emit(e.line)
+				}
+
+				sum.Conc++
+
+				continue
+			}
+
 			seeds := make([]int64, G)
 			for g := range seeds {
 				seeds[g] = rng.Int63()
